@@ -91,6 +91,10 @@ def conversions(ctx, B, b, bits, light=False):
     same(ctx, 'rt:bitlist', call(lambda: B(b.bitlist())), bits, **det)
     same(ctx, 'rt:str', call(lambda: B([int(c) for c in str(b)])), bits, **det)
     same(ctx, 'rt:copy', call(B, b), bits, **det)
+    # a copy with a requested size: shorter (the low bits), equal, longer (zero-extended), empty
+    for m in sorted({0, n // 2, max(0, n - 1), n, n + 1, n + 9}):
+        same(ctx, 'rt:copy', call(B, b, m), (bits + [0] * m)[:m], requested_size=m, **det)
+    ctx.check('operand-unchanged', b.ival == x and b.size == n, (b.ival, b.size), (x, n), after='copies with a requested size')
     ctx.check('operand-unchanged', b.ival == x and b.size == n, (b.ival, b.size), (x, n))
 
 def run(case, ctx, rng):
